@@ -77,13 +77,41 @@ type ptObj struct {
 	offs        []int
 	log         []string
 	step        int
+	lastPID     int      // process addressed by the history's most recent operation (0: none yet)
+	snap        []byte   // the outstanding checkpoint (save)
+	snapRL      []string // reverse-lookup answers at the time of the save, per physical page
+}
+
+// pidOrder is the order in which the observer visits the processes: the one the
+// history used last comes first, so that whatever the object remembers about
+// its most recent client is exercised by the observation instead of being
+// overwritten by it; prime() afterwards makes that process the most recently
+// used one again, as it is in the history itself.
+func (o *ptObj) pidOrder() []int {
+	out := make([]int, 0, o.np)
+	if o.lastPID >= 1 && o.lastPID <= o.np {
+		out = append(out, o.lastPID)
+	}
+	for p := 1; p <= o.np; p++ {
+		if p != o.lastPID {
+			out = append(out, p)
+		}
+	}
+	return out
+}
+
+func (o *ptObj) prime(pt vm.PageTable) {
+	if o.lastPID >= 1 && o.lastPID <= o.np {
+		pt.Find(vm.PID(o.lastPID), ptVAddr(1))
+	}
 }
 
 func newPT() vm.PageTable { return vm.NewPageTable(ptLog2) }
 
 func (o *ptObj) Project() any {
 	tbl := make([][]any, o.np)
-	for p := 1; p <= o.np; p++ {
+	defer o.prime(o.pt)
+	for _, p := range o.pidOrder() {
 		row := make([]any, o.nv)
 		for v := 1; v <= o.nv; v++ {
 			pg, found := o.pt.Find(vm.PID(p), ptVAddr(v))
@@ -117,7 +145,7 @@ func ptRefusal(f func()) (res any) {
 // lookups is everything a client can ask: every find (all keys, all offsets).
 func (o *ptObj) finds(pt vm.PageTable) []any {
 	var out []any
-	for p := 1; p <= o.np; p++ {
+	for _, p := range o.pidOrder() {
 		for v := 1; v <= o.nv; v++ {
 			for _, off := range o.offs {
 				pg, found := pt.Find(vm.PID(p), ptVAddr(v)+uint64(off))
@@ -125,12 +153,17 @@ func (o *ptObj) finds(pt vm.PageTable) []any {
 			}
 		}
 	}
+	o.prime(pt)
 	return out
 }
 
 func (o *ptObj) Apply(a map[string]any) any {
 	arg := a["arg"]
 	f := func(k string) int { return replay.Num(replay.Field(arg, k)) }
+	switch replay.Str(a["op"]) {
+	case "insert", "update", "remove", "find":
+		o.lastPID = f("pid")
+	}
 	switch replay.Str(a["op"]) {
 	case "insert":
 		return ptRefusal(func() { o.pt.Insert(ptPage(f("pid"), f("v"), f("pa"), f("dev"))) })
@@ -184,8 +217,99 @@ func (o *ptObj) Apply(a map[string]any) any {
 		}
 		o.pt = npt
 		return "ok"
+	case "save":
+		c, ok := o.pt.(ptCkpt)
+		if !ok {
+			return "page table has no SaveCheckpoint/LoadCheckpoint"
+		}
+		rl, bad := o.reverseAll(o.pt)
+		if bad != nil {
+			return bad
+		}
+		var buf bytes.Buffer
+		if err := c.SaveCheckpoint(&buf); err != nil {
+			return "save error: " + err.Error()
+		}
+		o.snap, o.snapRL = buf.Bytes(), rl
+		for pa := 1; pa <= o.npa; pa++ {
+			o.log = append(o.log, fmt.Sprintf("%d:sv:%d:%s", o.step, pa, rl[pa]))
+		}
+		return "ok"
+	case "rollback":
+		// the live object kept operating after the save; the snapshot comes back into it
+		if o.snap == nil {
+			return "no snapshot"
+		}
+		if err := o.pt.(ptCkpt).LoadCheckpoint(bytes.NewReader(o.snap)); err != nil {
+			return "load error: " + err.Error()
+		}
+		return o.afterRestore(o.pt)
+	case "load_into_used":
+		// another table object, used with other contents for every process and most
+		// recently for process `arg`, receives the snapshot and replaces the table
+		if o.snap == nil {
+			return "no snapshot"
+		}
+		last := replay.Num(arg)
+		other := newPT()
+		order := make([]int, 0, o.np)
+		for p := 1; p <= o.np; p++ {
+			if p != last {
+				order = append(order, p)
+			}
+		}
+		order = append(order, last)
+		for _, p := range order {
+			for v := 1; v <= o.nv; v++ {
+				other.Insert(ptPage(p, v, 1+(p+v)%o.npa, 1+(p+v)%2))
+			}
+			other.Update(ptPage(p, 1, 2-(p%2), 2))
+			other.Find(vm.PID(p), ptVAddr(o.nv))
+		}
+		// a process the history never uses (hence absent from every snapshot) holds a page at a
+		// physical page of its own; used before `last` so that `last` stays the most recently used
+		extra := vm.PID(o.np + 1)
+		other.Insert(ptPage(int(extra), 1, o.npa+1, 1))
+		other.Find(vm.PID(last), ptVAddr(o.nv))
+		if err := other.(ptCkpt).LoadCheckpoint(bytes.NewReader(o.snap)); err != nil {
+			return "load error: " + err.Error()
+		}
+		o.pt, o.lastPID = other, last
+		// (asked through the reverse lookup, which does not disturb what the table remembers about `last`)
+		if pg, found := other.ReverseLookup(ptPAddr(o.npa + 1)); found {
+			return fmt.Sprintf("a page of a process that is not in the checkpoint survives the load: %+v", pg)
+		}
+		return o.afterRestore(o.pt)
 	}
 	return "unknown op"
+}
+
+// reverseAll asks a reverse lookup for every physical page.
+func (o *ptObj) reverseAll(pt vm.PageTable) ([]string, any) {
+	rl := make([]string, o.npa+1)
+	for pa := 1; pa <= o.npa; pa++ {
+		pg, found := pt.ReverseLookup(ptPAddr(pa))
+		m := ptAbs(pg, found)
+		if m["bad"] != nil {
+			return nil, map[string]any{"reverse lookup": "malformed page", "pa": pa, "got": m}
+		}
+		rl[pa] = ptAns(m)
+	}
+	return rl, nil
+}
+
+// afterRestore logs the reverse-lookup answers at save time next to those of the
+// restored table (they must agree); the map itself is compared by the caller
+// through the projection.
+func (o *ptObj) afterRestore(pt vm.PageTable) any {
+	rl, bad := o.reverseAll(pt)
+	if bad != nil {
+		return bad
+	}
+	for pa := 1; pa <= o.npa; pa++ {
+		o.log = append(o.log, fmt.Sprintf("%d:rb:%d:%s", o.step, pa, o.snapRL[pa]), fmt.Sprintf("%d:ra:%d:%s", o.step, pa, rl[pa]))
+	}
+	return "ok"
 }
 
 // ptSame is replay.Equal with a shortcut for the flat records of this driver
@@ -241,7 +365,8 @@ func (o *ptObj) projectionIs(want any) bool {
 	if len(tbl) != o.np {
 		return false
 	}
-	for p := 1; p <= o.np; p++ {
+	defer o.prime(o.pt)
+	for _, p := range o.pidOrder() {
 		row, _ := tbl[p-1].([]any)
 		if len(row) != o.nv {
 			return false
